@@ -85,7 +85,14 @@ func runC11(c *Ctx) {
 				version++
 				opening++
 				n := len(streams) + 1
-				rs, err := rawOpenStream(c, fmt.Sprintf("peer/get%d", n), "GET", "http://srv/mcp", withSession(map[string]string{"Accept": "text/event-stream"}, sid), nil)
+				hdr := withSession(map[string]string{"Accept": "text/event-stream"}, sid)
+				if op.Arg == 2 && n > 1 {
+					// a reconnect that asks for resumption: the server writes a notice of its own on
+					// the new stream while it is being established
+					hdr["Last-Event-ID"] = fmt.Sprintf("evt-%d", n)
+					s.Probe("c11.open_with_last_event_id")
+				}
+				rs, err := rawOpenStream(c, fmt.Sprintf("peer/get%d", n), "GET", "http://srv/mcp", hdr, nil)
 				opening--
 				version++
 				if err != nil || rs.Status != 200 {
